@@ -143,10 +143,22 @@ class Interp:
         for b, d in self.body.defs.items():
             if d['kind'] == 'param':
                 t = ('param', d['name'])
+                if d['proj']:
+                    # a parameter taken apart in the signature: every binding is a projection of the one (positional) parameter,
+                    # and a struct pattern reads fields exactly as `let S { a, b } = p;` in the body would
+                    t = ('param', '#%d' % d['idx'])
                 for pr in d['proj']:
-                    t = proj_term(t, pr)
+                    if pr[0] == 'vfield' and self.is_struct_name(pr[1]):
+                        t = field_term(t, pr[2])
+                    else:
+                        t = proj_term(t, pr)
                 env[b] = t
         return env
+
+    def is_struct_name(self, short):
+        if not hasattr(self, '_structs'):
+            self._structs = {hirq.short_def(k) for k, it in self.facts.items.items() if it.get('kind') == 'Struct'}
+        return short in self._structs
 
     # ------------------------------------------------------------------ helpers
     def discr_of(self, short):
@@ -703,7 +715,13 @@ class Interp:
         for _round in range(4):
             changed = False
             for s in product(False):
-                for sb in runner(s):
+                # (a field hook may consult `in_fixpoint` to stay out of the way while the carried values are being discovered)
+                self.in_fixpoint = getattr(self, 'in_fixpoint', 0) + 1
+                try:
+                    back = runner(s)
+                finally:
+                    self.in_fixpoint -= 1
+                for sb in back:
                     for b in cand:
                         v = sb.env.get(b)
                         if v is None or b in wide or v in vals[b] or (v[0] == 'carried' and v[1] == b):
@@ -1230,6 +1248,11 @@ class Interp:
                         res.append(('maybe', s))
             return res or [('no', st)]
         if k == 'PRange':
+            lo, hi = p.get('lo'), p.get('hi')
+            if v[0] == 'lit' and isinstance(v[1], int) and not isinstance(v[1], bool) and all(b is None or (b.get('k') == 'PLit' and isinstance(b.get('v'), int) and not b.get('neg')) for b in (lo, hi)):
+                # a literal against a range of literals is decided exactly
+                ok = (lo is None or lo['v'] <= v[1]) and (hi is None or v[1] < hi['v'] + (1 if 'Included' in (p.get('end') or '') else 0))
+                return [('yes' if ok else 'no', st)]
             return [('maybe', st)]
         if k == 'PGuard':
             return [('maybe' if kind == 'yes' else kind, s) for kind, s in self.match(p['pat'], v, st)]
@@ -1343,6 +1366,35 @@ def bin_term(op, a, b):
     if op == 'Ne':
         return ('not', ('bin', 'Eq', a, b))
     return ('bin', op, a, b)
+
+def finite_seq(t):
+    """The element terms of a sequence value whose length is known syntactically: an array expression `[a, b, c]` (iter / into_iter
+    are transparent), also after zip / enumerate with literal counters.  None for anything else."""
+    if t[0] == 'array' and len(t[1]) <= 16:
+        return list(t[1])
+    return None
+
+def zip_finite(I, a, b):
+    """The pairs of zip(a, b) when one side is an array expression and the other an array expression, a literal range or an
+    open literal counter `n..`; None otherwise."""
+    def side(t, n):
+        fs = finite_seq(t)
+        if fs is not None:
+            return fs
+        if t[0] == 'struct' and t[1].rsplit('::', 1)[-1] == 'RangeFrom' and n is not None:
+            s = dict(t[2]).get('start')
+            if s is not None and s[0] == 'lit' and isinstance(s[1], int) and not isinstance(s[1], bool):
+                return [('lit', s[1] + i) for i in range(n)]
+            return None
+        return I.literal_elems(t)
+    fa, fb = finite_seq(a), finite_seq(b)
+    if fa is None and fb is None:
+        return None
+    xs = side(a, len(fb) if fb is not None else None)
+    ys = side(b, len(fa) if fa is not None else None)
+    if xs is None or ys is None:
+        return None
+    return [('tuple', (x, y)) for x, y in zip(xs, ys)]
 
 class NotEvaluable(Exception):
     pass
@@ -1627,6 +1679,40 @@ def builtin_summary(I, cal, args, node, st):
         return [Out('val', ('lit', ''), st)]
     if cal.endswith('alloc::boxed::Box::<T>::new') and args:
         return [Out('val', args[0], st)]
+    if cal == 'core::iter::traits::iterator::Iterator::zip' and len(args) == 2:
+        # zip of an array expression with a literal counter (`0u64..`), a literal range or another array expression: the pairs are known
+        z = zip_finite(I, args[0], args[1])
+        if z is not None:
+            return [Out('val', ('array', tuple(z)), st)]
+    if cal == 'core::iter::traits::iterator::Iterator::enumerate' and len(args) == 1 and finite_seq(args[0]) is not None:
+        return [Out('val', ('array', tuple(('tuple', (('lit', i), x)) for i, x in enumerate(finite_seq(args[0])))), st)]
+    if cal in ('core::iter::traits::iterator::Iterator::map', 'core::iter::traits::iterator::Iterator::filter_map', 'core::iter::traits::iterator::Iterator::filter') \
+            and len(args) == 2 and args[1][0] in ('closure', 'fn') and finite_seq(args[0]) is not None:
+        # an adaptor over an array expression is evaluated exactly, element by element in order (like a `for` over a literal
+        # sequence): the result is the vector of what the closure yields / keeps, on each combination of its decisions
+        states, abn = [((), st)], []
+        for x in finite_seq(args[0]):
+            nxt = []
+            for acc, s in states:
+                for o in I.apply(args[1], [x], node, s):
+                    if o.kind != 'val':
+                        abn.append(o)
+                    elif name == 'map':
+                        nxt.append((acc + (o.val,), o.st))
+                    elif name == 'filter':
+                        for truth, s3 in I.decide(o.val, o.st):
+                            nxt.append((acc + (x,) if truth else acc, s3))
+                    elif o.val[0] == 'ctor' and o.val[1] in ('Some', 'None'):
+                        nxt.append((acc + (o.val[2][0],) if o.val[1] == 'Some' else acc, o.st))
+                    else:
+                        kt = o.st.variant_test(o.val, 'Some', ['Some', 'None'])
+                        if kt != 'no':
+                            nxt.append((acc + (('variant', o.val, 'Some', 0),), o.st if kt == 'yes' else o.st.assume(('is', o.val, 'Some'), True)))
+                        if kt != 'yes':
+                            nxt.append((acc, o.st if kt == 'no' else o.st.assume(('is', o.val, 'Some'), False)))
+            states = nxt
+            I.guard(len(states))
+        return [Out('val', ('vec', acc), s) for acc, s in states] + abn
     if cal == 'core::iter::traits::iterator::Iterator::map' and len(args) == 2 and args[1][0] in ('closure', 'fn'):
         src = args[0]
         el, st2 = st.fresh('elem')
